@@ -13,8 +13,9 @@ Decided statically:
     value at pk_values[sequence].
 Not decided: that the arithmetic equals Murmur3 for all inputs and chunkings (numerical); the CDC token value.
 """
+from ..inline import inline_view
 from ..mir import AnchorLost
-from ..util import df_of, fn_short, in_set, backward_slice, operand_path, path_last, uses_of_local, switch_on, switch_edges
+from ..util import norm_cmps, closure_family, df_of, fn_short, in_set, backward_slice, operand_path, path_last, uses_of_local, switch_on, switch_edges
 from .c20 import slice_fields
 
 H = "scylla::routing::partitioner::Murmur3PartitionerHasher"
@@ -77,7 +78,7 @@ def encoder_shape(r, facts, b, tag, write_calls):
     r.instance(tag + ":length-not-little-endian", not any(n.endswith("to_le_bytes") or n.endswith("to_ne_bytes") for n in names), "length must be big-endian", c_len.span, nontrivial=False)
     # overflow -> error exit
     errs = [1 for bb in b.live_blocks for s in b.stmts(bb) if s[0] == "A" and s[2][0] == "agg" and s[2][1][0] == "adt" and s[2][1][2] == "ValueTooLong"]
-    clos = [facts.body(p) for p in facts.bodies.keys() if p.startswith(b.path + "::{closure")]
+    clos = closure_family(facts, b)[1:]
     errs += [1 for cb in clos for bb in cb.live_blocks for s in cb.stmts(bb) if s[0] == "A" and s[2][0] == "agg" and s[2][1][0] == "adt" and s[2][1][2] == "ValueTooLong"]
     r.instance(tag + ":too-long-is-error", bool(errs), "a component longer than 65535 bytes must be an error (ValueTooLong)", c_len.span, nontrivial=False)
     # zero byte: a one-element array of constant 0
@@ -195,6 +196,10 @@ def r4(ctx, facts):
     b = facts.one(r"^scylla::routing::Token::new$")
     df = df_of(b, facts)
     v = int_consts(b)
+    for bb in b.live_blocks:   # a `match value { i64::MIN => .. }` keeps the constant in the SwitchInt
+        t = b.term(bb)
+        if t[0] == "switch" and b.ty(t[4]) == "i64":
+            v += [x - (1 << 64) if x >= (1 << 63) else x for x in (int(y) for y, _ in t[2])]
     MIN, MAX = -(1 << 63), (1 << 63) - 1
     r.instance("token-new-constants", MIN in v and MAX in v, "Token::new must compare with i64::MIN and substitute i64::MAX; constants: %s" % v, b.span)
     # the MAX assignment is in the (value == MIN) region
@@ -204,8 +209,10 @@ def r4(ctx, facts):
             if s[0] == "A" and s[2][0] == "use" and s[2][1][0] == "k" and s[2][1][1] == "int" and int(s[2][1][3]) == MAX:
                 st = df.state_before_stmt(bb, j) or {}
                 for k, val in st.items():
-                    if k[0] == "bin" and k[1] == "Eq" and ("const", MIN) in (k[2], k[3]) and in_set(val, {1}):
-                        ok = True
+                    pass
+                if any(o == "Eq" and y == ("const", MIN) and t == 1 for o, x, y, t in norm_cmps(st)):
+                    ok = True
+                for k, val in st.items():
                     if k[0] == "val" and k[1] == (1, ()) and in_set(val, {MIN}):
                         ok = True
     r.instance("min-maps-to-max", ok, "i64::MAX must be produced exactly in the value == i64::MIN region", b.span)
@@ -219,7 +226,7 @@ def r5(ctx, facts):
     b = facts.one(r"^scylla_cql::frame::response::result::deser_prepared_metadata$")
     df = df_of(b, facts)
     outer = b
-    fam = [b] + [facts.body(p) for p in facts.bodies.keys() if p.startswith(b.path + "::{closure")]
+    fam = closure_family(facts, b)
     # any sorting in the parser must act on PartitionKeyIndex values (position already attached), never on the raw marker
     # indexes: sorting those first and numbering afterwards turns `sequence` into the marker rank
     for fb in fam:
@@ -266,7 +273,7 @@ def r5(ctx, facts):
 
 
 def check(ctx):
-    facts = ctx.facts("default")
+    facts = inline_view(ctx.facts("default"))
     for fn in (r1, r2, r3, r4, r5):
         try:
             fn(ctx, facts)
